@@ -75,6 +75,12 @@ def parse_filter_dict(filter_dict: Dict[str, Any]) -> List[FilterExpression]:
             else:
                 op = _parse_op(op_str)
                 _check_value(column, op, value)
+                if op in (FilterOp.IN, FilterOp.NOT_IN):
+                    # The value set is walked more than once (file pruning, then
+                    # one expression per file): a one-shot iterable such as a
+                    # generator would be empty the second time and the filter
+                    # would silently select nothing.
+                    value = list(value)
                 expressions.append(FilterExpression(column, op, value))
         elif condition is None:
             # {"column": None} reads as "column IS NULL", but SQL equality with
